@@ -332,3 +332,23 @@ Definition pc_with_data (cf : cfg) (length : Z) (data : list N) (pat : list Z) :
 
 (* full Get sweep *)
 Definition pc_sweep (c : pc) : list outcome := map (pc_get c) (positions (blen (cdata c))).
+
+(* histories of Get/Set: the model and the abstract array side by side *)
+Inductive pop := PGet (i : Z) | PSet (i v : Z).
+Definition pc_step (c : pc) (o : pop) : pc * outcome :=
+  match o with PGet i => (c, pc_get c i) | PSet i v => pc_set set_fuel c i v end.
+Fixpoint pc_run (c : pc) (ops : list pop) : pc * list outcome :=
+  match ops with
+  | [] => (c, [])
+  | o :: t => let '(c1, r) := pc_step c o in let '(c2, rs) := pc_run c1 t in (c2, r :: rs)
+  end.
+Definition spec_pstep (a : list Z) (o : pop) : list Z * outcome :=
+  match o with
+  | PGet i => (a, match spec_get a i with Some v => ORet v | None => OPanic pIdx end)
+  | PSet i v => (spec_set a i v, OUnit)
+  end.
+Fixpoint spec_prun (a : list Z) (ops : list pop) : list Z * list outcome :=
+  match ops with
+  | [] => (a, [])
+  | o :: t => let '(a1, r) := spec_pstep a o in let '(a2, rs) := spec_prun a1 t in (a2, r :: rs)
+  end.
